@@ -300,7 +300,8 @@ class Inliner(object):
         # 2. statement-level for the recognised call sites
         call = calls[0]
         fd, is_m = self._resolve(call, table, methods)
-        if _returns_in_loops_or_try(fd) or _has(fd, (ast.Yield, ast.YieldFrom)):
+        tail_call = isinstance(st, ast.Return) and st.value is call      # `return h(..)`: the helper's returns stay returns
+        if (_returns_in_loops_or_try(fd) and not tail_call) or _has(fd, (ast.Yield, ast.YieldFrom)):
             return None
         self.counter += 1
         env = _param_env(fd, call, is_m, self.counter)
@@ -321,8 +322,8 @@ class Inliner(object):
                     x.src_file = getattr(st, 'src_file', None)
             self.log.append('{}: call of new helper {}() at line {} inlined (statement level)'.format(where, fd.name, getattr(st, 'lineno', '?')))
             return stmts
-        if isinstance(st, ast.Return) and st.value is call:
-            return done(_as_statements(body, None, True) + ([] if _ends(body) else [ast.Return(value=ast.Constant(value=None))]))
+        if tail_call:
+            return done(body + ([] if _ends(body) else [ast.Return(value=ast.Constant(value=None))]))
         if isinstance(st, ast.Expr) and st.value is call:
             return done(_as_statements(body, None, False) or [ast.Pass()])
         if isinstance(st, ast.Assign) and st.value is call and len(st.targets) == 1:
